@@ -49,11 +49,9 @@ theorem nsIdx_some {s : State} {n : String} {nd : Node} (h : nodeFind s n = some
   rw [h]
   exact nodeKey_congr _ (nodeFind_name h)
 
-theorem nsIdx_none {s : State} {n : String} (h : nodeFind s n = none) (hn : 2 ≤ n.length) : nsIdx s n = idxVal s.index kNodeExt := by
+theorem nsIdx_none {s : State} {n : String} (h : nodeFind s n = none) : nsIdx s n = idxVal s.index kNodeExt := by
   unfold nsIdx nodeServicesHead
   rw [h]
-  have : ¬ n.length < 2 := by omega
-  simp [this]
 
 /-- the result of NodeServices(n) is a function of the view -/
 theorem nodeServices_res_of_view {s s' : State} {n : String} (h : nsView s' n = nsView s n) :
@@ -63,7 +61,7 @@ theorem nodeServices_res_of_view {s s' : State} {n : String} (h : nsView s' n = 
   cases h1 : nodeFind s' n with
   | none =>
     cases h2 : nodeFind s n with
-    | none => by_cases hl : n.length < 2 <;> simp [hl]
+    | none => simp
     | some nd => simp [h1, h2] at h
   | some nd' =>
     cases h2 : nodeFind s n with
@@ -123,7 +121,7 @@ theorem NodeStep.next {s s' : State} (h : NodeStep n i s0 s) (hle : IdxLe i s'.i
   · exact Or.inr hf
 
 /-- a step that keeps the node row lookup, the services on the node and the `node.<n>` row -/
-theorem NodeStep.same (hn : 2 ≤ n.length) {s s' : State} (h : NodeStep n i s0 s) (t : Tbl1 i s s')
+theorem NodeStep.same {s s' : State} (h : NodeStep n i s0 s) (t : Tbl1 i s s')
     (hnf : ∀ v ∈ s'.svcs, NF v.node) (hnn : ∀ nd ∈ s'.nodes, NF nd.name)
     (hf : nodeFind s' n = nodeFind s n)
     (hsv : (nodeFind s n).isSome = true → svcsOnNode s' n = svcsOnNode s n)
@@ -134,14 +132,14 @@ theorem NodeStep.same (hn : 2 ≤ n.length) {s s' : State} (h : NodeStep n i s0 
     rw [nsIdx_some (hf.trans hnd), nsIdx_some hnd]
     exact Or.inl (hk (by rw [hnd]; rfl))
   | none =>
-    rw [nsIdx_none (hf.trans hnd) hn, nsIdx_none hnd hn]
+    rw [nsIdx_none (hf.trans hnd), nsIdx_none hnd]
     exact t.ops.same_or h.le stable_nodeExt
 
 /-- a primitive that changes neither the nodes nor the services table, and no `node.<n>` row -/
-theorem NodeStep.frame (hn : 2 ≤ n.length) {s s' : State} (h : NodeStep n i s0 s) (t : Tbl1 i s s')
+theorem NodeStep.frame {s s' : State} (h : NodeStep n i s0 s) (t : Tbl1 i s s')
     (h1 : s'.nodes = s.nodes) (h2 : s'.svcs = s.svcs)
     (hk : idxGet s'.index (nodeKey n) = idxGet s.index (nodeKey n)) : NodeStep n i s0 s' :=
-  h.same hn t (by rw [h2]; exact h.nf_svc) (by rw [h1]; exact h.nf_node) (by unfold nodeFind; rw [h1])
+  h.same t (by rw [h2]; exact h.nf_svc) (by rw [h1]; exact h.nf_node) (by unfold nodeFind; rw [h1])
     (fun _ => by unfold svcsOnNode; rw [h2]) (fun _ => idxVal_of_get hk)
 
 theorem lc_nodeKey_iff (a b : String) : lc (nodeKey a) = lc (nodeKey b) ↔ lc a = lc b := by
@@ -177,7 +175,7 @@ theorem nodeInsert_tables (s : State) (nd : Node) :
   simp only [catView, Prod.mk.injEq] at hcv
   exact ⟨hcv.1, hcv.2.1⟩
 
-theorem node_nodeInsert (hn : 2 ≤ n.length) {s : State} (nd : Node) (hm : nd.modify = i) (hnd : NF nd.name)
+theorem node_nodeInsert {s : State} (nd : Node) (hm : nd.modify = i) (hnd : NF nd.name)
     (h : NodeStep n i s0 s) : NodeStep n i s0 (nodeInsert s nd) := by
   have T := tbl_nodeInsert s nd hm
   have hle := T.ops.le h.le
@@ -198,7 +196,7 @@ theorem node_nodeInsert (hn : 2 ≤ n.length) {s : State} (nd : Node) (hm : nd.m
   · have hfind : nodeFind (nodeInsert s nd) n = nodeFind s n := by
       unfold nodeFind; rw [hnodes]
       exact tfind_tupsert_ne nd s.nodes hnm
-    exact h.same hn T hS hN hfind (fun _ => by unfold svcsOnNode; rw [hsv]) (fun _ => by rw [hrow, if_neg hnm])
+    exact h.same T hS hN hfind (fun _ => by unfold svcsOnNode; rw [hsv]) (fun _ => by rw [hrow, if_neg hnm])
 
 /-! ### services -/
 
@@ -280,7 +278,7 @@ theorem svcInsert_row (s : State) (v : Svc) (m : String) :
 theorem svc_pk_node {x v : Svc} (hx : NF x.node) (hv : NF v.node) (h : Svc.pk x = Svc.pk v) : lc x.node = lc v.node :=
   (pk2_inj hx hv h).1
 
-theorem node_svcInsert (hn : 2 ≤ n.length) {s : State} (v : Svc) (hm : v.modify = i) (hnf : NF v.node)
+theorem node_svcInsert {s : State} (v : Svc) (hm : v.modify = i) (hnf : NF v.node)
     (hnode : (nodeFind s v.node).isSome = true) (h : NodeStep n i s0 s) : NodeStep n i s0 (svcInsert s v) := by
   have T := tbl_svcInsert s v hm
   have hle := T.ops.le h.le
@@ -309,7 +307,7 @@ theorem node_svcInsert (hn : 2 ≤ n.length) {s : State} (v : Svc) (hm : v.modif
       · intro x hx hpk
         have := svc_pk_node (h.nf_svc x hx) hnf hpk
         simpa [this] using fun e => hnm e.symm
-    exact h.same hn T hS hN hfind (fun _ => hsvc) (fun _ => by rw [hrow, if_neg hnm])
+    exact h.same T hS hN hfind (fun _ => hsvc) (fun _ => by rw [hrow, if_neg hnm])
 
 /-- `node.<m>` after `deleteServicePost` -/
 theorem deleteServicePost_row (s : State) (node id : String) (v : Svc) (m : String) :
@@ -338,7 +336,7 @@ theorem deleteServicePost_tables (s : State) (node id : String) (v : Svc) :
   simp only [catView, Prod.mk.injEq] at hcv
   exact ⟨hcv.1, hcv.2.1⟩
 
-theorem node_deleteServicePost (hn : 2 ≤ n.length) {s : State} (node id : String) (v : Svc) (hnf : NF node)
+theorem node_deleteServicePost {s : State} (node id : String) (v : Svc) (hnf : NF node)
     (h : NodeStep n i s0 s) : NodeStep n i s0 (deleteServicePost s i node id v) := by
   have T := tbl_deleteServicePost (i := i) s node id v
   have hle := T.ops.le h.le
@@ -355,16 +353,16 @@ theorem node_deleteServicePost (hn : 2 ≤ n.length) {s : State} (node id : Stri
       rw [nsIdx_some (hfind.trans hnd), hrow, if_pos hnm]
       exact Nat.max_eq_right (h.le.val _)
     | none =>
-      exact h.same hn T hS hN hfind (fun hs => by rw [hnd] at hs; simp at hs) (fun hs => by rw [hnd] at hs; simp at hs)
+      exact h.same T hS hN hfind (fun hs => by rw [hnd] at hs; simp at hs) (fun hs => by rw [hnd] at hs; simp at hs)
   · have hsvc : svcsOnNode (deleteServicePost s i node id v) n = svcsOnNode s n := by
       unfold svcsOnNode; rw [hsv]
       apply filter_terase_of_not_mem
       intro x hx hpk
       have := (pk2_inj (h.nf_svc x hx) hnf hpk).1
       simpa [this] using fun e => hnm e.symm
-    exact h.same hn T hS hN hfind (fun _ => hsvc) (fun _ => by rw [hrow, if_neg hnm])
+    exact h.same T hS hN hfind (fun _ => hsvc) (fun _ => by rw [hrow, if_neg hnm])
 
-theorem node_deleteNodePost (hn : 2 ≤ n.length) {s : State} (name : String)
+theorem node_deleteNodePost {s : State} (name : String)
     (h : NodeStep n i s0 s) : NodeStep n i s0 (deleteNodePost s i name) := by
   have T := tbl_deleteNodePost (i := i) s name
   have hle := T.ops.le h.le
@@ -384,10 +382,10 @@ theorem node_deleteNodePost (hn : 2 ≤ n.length) {s : State} (name : String)
       omega
     have hfind : nodeFind (deleteNodePost s i name) n = none := by
       unfold nodeFind; rw [hnodes, hnm]; exact tfind_terase_self _ _
-    rw [nsIdx_none hfind hn]; exact hext
+    rw [nsIdx_none hfind]; exact hext
   · have hfind : nodeFind (deleteNodePost s i name) n = nodeFind s n := by
       unfold nodeFind; rw [hnodes]; exact tfind_terase_ne _ _ _ hnm
-    refine h.same hn T hS hN hfind (fun _ => by unfold svcsOnNode; rw [hsv]) (fun _ => ?_)
+    refine h.same T hS hN hfind (fun _ => by unfold svcsOnNode; rw [hsv]) (fun _ => ?_)
     have hk := offCat_nodeKey n
     apply idxVal_of_get
     unfold deleteNodePost
@@ -401,45 +399,45 @@ theorem node_deleteNodePost (hn : 2 ≤ n.length) {s : State} (name : String)
 /-- node names are NUL-free (lower-cased) -/
 def nodeGuard : Guard := { Np := NF }
 
-theorem node_closed (hn : 2 ≤ n.length) (s0 : State) : PrimClosed i nodeGuard (NodeStep n i s0) where
-  kvInsert s e he h := h.frame hn (tbl_kvInsert s e he) rfl rfl (get_kvInsert (offCat_nodeKey n) s e)
+theorem node_closed (s0 : State) : PrimClosed i nodeGuard (NodeStep n i s0) where
+  kvInsert s e he h := h.frame (tbl_kvInsert s e he) rfl rfl (get_kvInsert (offCat_nodeKey n) s e)
   kvDelete s s' k hr h := by
     have hv := catView_kvDeleteTxn hr
-    exact h.frame hn (tbl_kvDelete hr) (catView_nodes hv) (catView_svcs hv) (get_kvDelete (offCat_nodeKey n) hr)
+    exact h.frame (tbl_kvDelete hr) (catView_nodes hv) (catView_svcs hv) (get_kvDelete (offCat_nodeKey n) hr)
   kvDeleteTree s p _ h := by
     have hv := catView_kvDeleteTreeTxn s i p
-    exact h.frame hn (tbl_kvDeleteTree s p) (catView_nodes hv) (catView_svcs hv) (get_kvDeleteTree (offCat_nodeKey n) s p)
-  removeSessionRow s id h := h.frame hn (tbl_removeSessionRow s id) rfl rfl (get_removeSessionRow (offCat_nodeKey n) s id)
+    exact h.frame (tbl_kvDeleteTree s p) (catView_nodes hv) (catView_svcs hv) (get_kvDeleteTree (offCat_nodeKey n) s p)
+  removeSessionRow s id h := h.frame (tbl_removeSessionRow s id) rfl rfl (get_removeSessionRow (offCat_nodeKey n) s id)
   invalidateKeys s sess h := by
     have hv := catView_invalidateKeys s i sess
-    exact h.frame hn (tbl_invalidateKeys s sess) (catView_nodes hv) (catView_svcs hv) (get_invalidateKeys (offCat_nodeKey n) s sess)
+    exact h.frame (tbl_invalidateKeys s sess) (catView_nodes hv) (catView_svcs hv) (get_invalidateKeys (offCat_nodeKey n) s sess)
   dropSessionRefs s id h := by
     have hv := catView_dropSessionRefs s i id
-    exact h.frame hn (tbl_dropSessionRefs s id) (catView_nodes hv) (catView_svcs hv) (get_dropSessionRefs (offCat_nodeKey n) s id)
+    exact h.frame (tbl_dropSessionRefs s id) (catView_nodes hv) (catView_svcs hv) (get_dropSessionRefs (offCat_nodeKey n) s id)
   checkPrep s s1 p hc hc1 md hr _ h := by
     have hv := (checkPrep_cat hr).1
-    exact h.frame hn (tbl_checkPrep hr) (catView_nodes hv) (catView_svcs hv) (get_checkPrep (offCat_nodeKey n) hr)
+    exact h.frame (tbl_checkPrep hr) (catView_nodes hv) (catView_svcs hv) (get_checkPrep (offCat_nodeKey n) hr)
   checkFinish _ _ s p _ hc1 md _ _ _ _ _ h := by
     have hv := checkFinish_cat s i p hc1 md
-    exact h.frame hn (tbl_checkFinish s p hc1 md) hv.1 hv.2.1 (get_checkFinish (offCat_nodeKey n) s p hc1 md)
+    exact h.frame (tbl_checkFinish s p hc1 md) hv.1 hv.2.1 (get_checkFinish (offCat_nodeKey n) s p hc1 md)
   chkRows _ _ _ _ := trivial
-  insertSession s x h := h.frame hn (tbl_insertSession s x) rfl rfl (get_insertSession (offCat_nodeKey n) s x)
+  insertSession s x h := h.frame (tbl_insertSession s x) rfl rfl (get_insertSession (offCat_nodeKey n) s x)
   pqSet s s' id sess hr h := by
     have hv := catView_pqSet hr
-    exact h.frame hn (tbl_pqSet hr) (catView_nodes hv) (catView_svcs hv) (get_pqSet (offCat_nodeKey n) hr)
+    exact h.frame (tbl_pqSet hr) (catView_nodes hv) (catView_svcs hv) (get_pqSet (offCat_nodeKey n) hr)
   pqDelete s id h := by
     have hv := catView_pqDelete s i id
-    exact h.frame hn (tbl_pqDelete s id) (catView_nodes hv) (catView_svcs hv) (get_pqDelete (offCat_nodeKey n) s id)
-  nodeInsert s nd hm hN h := node_nodeInsert hn nd hm hN h
+    exact h.frame (tbl_pqDelete s id) (catView_nodes hv) (catView_svcs hv) (get_pqDelete (offCat_nodeKey n) s id)
+  nodeInsert s nd hm hN h := node_nodeInsert nd hm hN h
   nodeNames _ h := h.nf_node
   deleteCheckPre s node id x _ h := by
     have hv := catView_deleteCheckPre s i node id x
     simp only [catView, Prod.mk.injEq] at hv
-    exact h.frame hn (tbl_deleteCheckPre s node id x) hv.1 hv.2.1 (get_deleteCheckPre (offCat_nodeKey n) s node id x)
-  deleteServicePost s node id v hN _ _ h := node_deleteServicePost hn node id v hN h
-  deleteNodePost s name _ _ _ h := node_deleteNodePost hn name h
-  bumpServiceIdx s name _ h := h.frame hn (tbl_bump s name) rfl rfl (get_bump (offCat_nodeKey n) s name)
-  svcInsert s v hv _ hN hnode h := node_svcInsert hn v hv hN hnode h
+    exact h.frame (tbl_deleteCheckPre s node id x) hv.1 hv.2.1 (get_deleteCheckPre (offCat_nodeKey n) s node id x)
+  deleteServicePost s node id v hN _ _ h := node_deleteServicePost node id v hN h
+  deleteNodePost s name _ _ _ h := node_deleteNodePost name h
+  bumpServiceIdx s name _ h := h.frame (tbl_bump s name) rfl rfl (get_bump (offCat_nodeKey n) s name)
+  svcInsert s v hv _ hN hnode h := node_svcInsert v hv hN hnode h
 
 
 /-! ### what the two queries return, in terms of the view and `nsIdx` -/
@@ -448,9 +446,7 @@ theorem nsIdx_le {m : Nat} {s : State} (h : IdxLe m s.index) (n : String) : nsId
   unfold nsIdx nodeServicesHead
   split
   · exact h.val _
-  · split
-    · exact Nat.zero_le _
-    · exact h.val _
+  · exact h.val _
 
 theorem nodeServices_idx (s : State) (n : String) : ((Query.nodeServices n).run s).1 = nsIdx s n := by
   simp only [Query.run, nsIdx]
@@ -476,7 +472,7 @@ theorem nodeServiceList_res_of_view {s s' : State} {n : String} (h : nsView s' n
   cases h1 : nodeFind s' n with
   | none =>
     cases h2 : nodeFind s n with
-    | none => by_cases hl : n.length < 2 <;> simp [hl]
+    | none => simp
     | some nd => simp [h1, h2] at h
   | some nd' =>
     cases h2 : nodeFind s n with
@@ -488,13 +484,13 @@ theorem nodeServiceList_res_of_view {s s' : State} {n : String} (h : nsView s' n
       rw [svcsOnNode_congr s' (nodeFind_name h1), svcsOnNode_congr s (nodeFind_name h2), hs, hi]
 
 /-- every command that names only NUL-free node names -/
-theorem node_apply (hn : 2 ≤ n.length) {s : State} (c : Cmd) (hG : c.ok nodeGuard) (h : NodeStep n i s0 s) :
+theorem node_apply {s : State} (c : Cmd) (hG : c.ok nodeGuard) (h : NodeStep n i s0 s) :
     NodeStep n i s0 (apply s i c).1 := by
   by_cases hc : ∀ u, c ≠ .reap u
-  · exact pc_apply (node_closed hn s0) c hc hG h
+  · exact pc_apply (node_closed s0) c hc hG h
   · have : ∃ u, c = .reap u := by
       cases c <;> simp at hc ⊢
     obtain ⟨u, rfl⟩ := this
-    exact h.frame hn (tbl_apply s i (.reap u)) rfl rfl rfl
+    exact h.frame (tbl_apply s i (.reap u)) rfl rfl rfl
 
 end CV.Store
